@@ -68,6 +68,10 @@ func bannerFree(c Case) Case {
 		n.Behav[k] = Behav{Out: v.Out}
 	}
 	n.Splits, n.DelayMs, n.Late = nil, 0, false
+	n.Fixed = nil
+	if n.SpecialIsBanner != "" {
+		n.Special, n.SpecialIsBanner = nil, ""
+	}
 	return n
 }
 
@@ -266,6 +270,59 @@ func genLate(delay int) []Case {
 			c := Case{Device: dev, Target: tgt, Behav: map[string]Behav{lines[0]: b},
 				Splits: map[string][]int{lines[0]: {n - len("\r\nrouter#")}}, DelayMs: delay, Late: true}
 			cases = append(cases, c)
+		}
+	}
+	return cases
+}
+
+// ---------------------------------------------------------------- banners on the fixed dialogue
+
+// genFixed: a banner rides on a command the session sends while the reload is scheduled, other than
+// a change: the second `configure terminal`, the deferred `end`, `reload cancel` (every form, every
+// offset), the confirmation of `reload in 2` / `do reload in 2`, the `do reload in 2` line itself.
+func genFixed(every int) []Case {
+	var cases []Case
+	dev, tgt := buildBase("ar")
+	lines := physLines(dev, tgt)
+	for _, na := range []bool{false, true} {
+		for _, l := range []string{"configure terminal", "end", "reload cancel"} {
+			for mi, m := range []string{msg2, msg1} {
+				offs := allOffsets(l)
+				for _, p := range placements(l, offs) {
+					if p.Form == "B" && (mi > 0 || every > 1) && p.Off%every != 0 && p.Off != len(l) {
+						continue
+					}
+					if mi > 0 && p.Form != "B" && p.Pad != 0 {
+						continue
+					}
+					p.Msg = m
+					cases = append(cases, Case{Device: dev, Target: tgt, Behav: map[string]Behav{}, NoAsk: na,
+						Fixed: map[string]Behav{l: p}})
+				}
+			}
+		}
+		// the confirmation (empty command): the four forms collapse to two streams
+		pre := "reload in 2\n\nSystem configuration has been modified. Save? [yes/no]: <!>Reload reason: Reload Command\nProceed with reload? [confirm]"
+		if na {
+			pre = "reload in 2\nProceed with reload? [confirm]"
+		}
+		one := bannerText(msg2)                               // banner, then echo and prompt
+		two := "\n\n" + bannerText(msg2) + "\n" + prompt // banner and a fresh prompt, then echo and prompt
+		for _, v := range []struct{ cls, ins string }{{"one-prompt", one}, {"two-prompt", two}} {
+			// confirmation of the schedule
+			cases = append(cases, Case{Device: dev, Target: tgt, Behav: map[string]Behav{}, NoAsk: na,
+				Special: map[string][]string{"reload in 2": {pre + v.ins + "<!>" + prompt}}, SpecialIsBanner: v.cls})
+			// confirmation of a re-arm (triggered by a 1:00 banner on the first change)
+			cases = append(cases, Case{Device: dev, Target: tgt, NoAsk: na,
+				Behav:   map[string]Behav{lines[1]: {Form: "B", Off: 3, Msg: msg1}},
+				Special: map[string][]string{"do reload in 2": {"do " + pre + v.ins + "<!>" + prompt}}, SpecialIsBanner: v.cls})
+		}
+		// banner before / inside the echo of `do reload in 2`
+		for _, rq := range []string{bannerText(msg2) + "\n" + prompt + "do " + pre + "<!>" + prompt,
+			"do rel" + bannerText(msg2) + strings.TrimPrefix("do "+pre, "do rel") + "<!>" + prompt} {
+			cases = append(cases, Case{Device: dev, Target: tgt, NoAsk: na,
+				Behav:   map[string]Behav{lines[1]: {Form: "B", Off: 3, Msg: msg1}},
+				Special: map[string][]string{"do reload in 2": {rq}}, SpecialIsBanner: "one-prompt"})
 		}
 	}
 	return cases
